@@ -227,9 +227,8 @@ Record env := mkEnv {
   e_hint : bool              (* the Fontmap implements FontmapScript *)
 }.
 
-Definition split (e : env) (s : segmenter) (x : input) : res segmenter :=
-  let s := reset s in
-  do b <- split_by_bidi (zlen (e_text e)) (e_bidi e) x;
+(* everything after splitByBidi; s = the Segmenter after reset, b = the runs splitByBidi appends to seg.output *)
+Definition split_rest (e : env) (s : segmenter) (x : input) (b : list input) : res segmenter :=
   let s := with_out s (buf_appends (s_out s) b) in
   let s := swap_bufs s in
   do r <- split_by_script (e_text e) (s_stack s) (live (s_in s));
@@ -246,6 +245,13 @@ Definition split (e : env) (s : segmenter) (x : input) : res segmenter :=
   let s := with_out s (buf_trunc (s_out s)) in
   do f <- split_by_face (e_text e) (e_hint e) (live (s_in s));
   Ok (with_out s (buf_appends (s_out s) f)).
+
+(* Split with the bidi run list of the range given from outside (e_bidi); Model/ItemizeBidi.v has Split with splitByBidi
+   itself (paragraph loop, x/text per paragraph) in front of the same split_rest *)
+Definition split (e : env) (s : segmenter) (x : input) : res segmenter :=
+  let s := reset s in
+  do b <- split_by_bidi (zlen (e_text e)) (e_bidi e) x;
+  split_rest e s x b.
 
 (* the slice returned by Split *)
 Definition split_runs (e : env) (s : segmenter) (x : input) : res (list input) :=
